@@ -65,6 +65,8 @@ def cases(tier, seed):
         for mw, sm, cm in itertools.product(mws, ("eager", "rendezvous", "threshold"), ("full", "minimal")):
             if tier == "quick" and (sm == "threshold" or (cm == "minimal" and sm == "rendezvous")):
                 continue
+            if prog.endswith("+p") and (mw not in (None, 2) or sm == "threshold" or cm == "minimal"):
+                continue  # progress variants: a reduced set of modes
             if size == 4 and (sm == "threshold" or cm == "minimal"):
                 continue  # the largest world: eager and rendezvous sends with fully synchronising collectives
             case = dict(program=prog, size=size, max_workers=mw, send_mode=sm, coll_mode=cm,
